@@ -1,7 +1,1442 @@
-"""Tie B for C08/C09 (placeholder until the translator is written): writes an empty
-coq/theories/Gen/GenC08.v so that the project builds."""
+"""Tie B for C08 / C09: regenerate coq/theories/Gen/GenC08.v from the CURRENT source (under
+$VERIF_REPO, default /repo) of pypyr/formatting.py
+
+  * RecursionSpec.__init__                       -> gen_RecursionSpec
+  * RecursiveFormatter._FORMAT_SPEC_RECURSION_DEPTH, __init__ (which attributes hold the
+    passthrough / special types)
+  * RecursiveFormatter._format_keep_type         -> gen_format_keep_type (+ its loop body)
+  * RecursiveFormatter._get_formatted_iterable   -> gen_get_formatted_iterable
+  * RecursiveFormatter.vformat                   -> gen_vformat
+
+from pypyr/dsl.py the `get_value` of the special tags PyString / SicString / Jsonify
+(-> gen_<Tag>_get_value; context.get_eval_string, context.get_formatted_value and json.dumps stay
+abstract), and, from pypyr/context.py, how Context builds the formatter (`formatter =
+RecursiveFormatter(special_types=...)`) and calls it (`self.formatter.vformat(v, None, self)`).
+Proofs/GenC08Proofs.v proves the generated definitions equal, for all inputs, to the hand model
+(Model/Format.v: mk_rspec, keep_type, iter_body / fmt_iter, format_value).
+
+Fail-closed: anything outside the subset below makes the definition come out under the name
+<gen_name>_UNTRANSLATED (reason in a comment), so every lemma that mentions the expected name
+stops compiling.
+
+What stays abstract (Section variables of the generated file, instantiated in the proofs by the
+hand model): CPython's string.Formatter.parse (the C tokenizer), get_field, _vformat (format-spec
+expansion), convert_field, format_field, and `.get_value(context)` of the special tags.  The
+translator checks that RecursiveFormatter does not override any of them.
+
+Translation (monadic, over `res`; continuation of an `if` duplicated unless both branches only
+rebind names, then the rebinding is joined):
+  dropped as effect-free: docstrings, logger.* calls, `used_args` book-keeping
+      (`used_args = set()`, `used_args.add(x)`, `self.check_unused_args(...)`: a no-op in CPython),
+      and the `memo` idiom of _get_formatted_iterable (`if memo is None: memo = {}`,
+      `x = id(obj)`, `y = memo.get(x, None)`, `if y is not None: return y`,
+      `[if new is not obj:] memo[x] = new` where `new` is what is returned afterwards):
+      memoising by identity inside one top-level call cannot change a result.  A call that
+      shares `memo` must pass `is_recursive` on unchanged, otherwise that is not true: refused.
+  `args`, `kwargs`, `used_args` are ambient: every call must pass them on under the same names.
+  x = e                        let x1 := e in ...                (fresh name per binding)
+  a, b = e                     let '(a1, b1) := e in ...
+  x += k                       auto_add / Z addition
+  l.append(e)                  let l2 := l1 ++ [e] in ...        (element type from LOCAL_LISTS)
+  r.attr = v                   functional record update; refused once r has been stored elsewhere
+  for a,b,c,d in self.parse(s) for_parse over the (items, tail) of the tokenizer; the body becomes a
+                               separate definition <name>_body over the tuple of the outer names it
+                               rebinds; c, d exist only where `b is not None`
+  raise E('literal')           Err "E" "literal"
+  return e                     Ok e
+  effectful calls (self.get_field, self._vformat, self.convert_field, self.format_field,
+  self._format_keep_type, self._get_formatted_iterable = the recursion knot, obj.get_value,
+  l[0], attribute of a possibly-None object, str <- object) are sequenced with let* in Python's
+  evaluation order.
+  expressions: names, constants, not/and/or with Python truthiness by type, ==, <, is [not] None,
+  is False, `c in s`, len, str, isinstance against classes of KNOWN_CLASSES (imported names are
+  checked), s.isdigit(), s[:n] / s[n:], tuples, x if c else y, list comprehensions and
+  generator expressions (mapM), ''.join(list), obj.items(), obj.__class__(generator),
+  RecursionSpec(spec).
+"""
+import ast
+import os
+import re
+import sys
 from pathlib import Path
+
+REPO = Path(os.environ.get('VERIF_REPO', '/repo'))
 OUT = Path(__file__).resolve().parent.parent / 'coq' / 'theories' / 'Gen' / 'GenC08.v'
-TEXT = '(* Gen/GenC08.v - placeholder *)\n'
-if not OUT.exists() or OUT.read_text() != TEXT:
-    OUT.write_text(TEXT)
+
+
+class Untranslatable(Exception):
+    pass
+
+
+class NotSimple(Exception):
+    """an `if` whose branches do more than rebind names: fall back to duplicating the rest"""
+
+
+def coq_str(s):
+    if any(ord(c) < 32 or ord(c) > 126 for c in s):
+        raise Untranslatable('non-printable constant')
+    return '"' + s.replace('"', '""') + '"'
+
+
+def is_logging(st):
+    return (isinstance(st, ast.Expr) and isinstance(st.value, ast.Call)
+            and isinstance(st.value.func, ast.Attribute) and isinstance(st.value.func.value, ast.Name)
+            and st.value.func.value.id == 'logger')
+
+
+def is_doc(st):
+    return isinstance(st, ast.Expr) and isinstance(st.value, ast.Constant) and isinstance(st.value.value, str)
+
+
+def strip(body):
+    return [st for st in body if not is_doc(st) and not is_logging(st) and not isinstance(st, ast.Pass)]
+
+
+def find(tree, qual):
+    body, node = tree.body, None
+    for p in qual.split('.'):
+        node = next((n for n in body if isinstance(n, (ast.FunctionDef, ast.ClassDef)) and n.name == p), None)
+        if node is None:
+            raise Untranslatable(f'{qual} not found')
+        body = node.body
+    return node
+
+
+# ---------------------------------------------------------------- types
+RSPEC_FIELDS = [('has_recursed', 'bool'), ('is_set', 'bool'), ('is_recursive', 'bool'), ('is_flat', 'bool'),
+                ('format_spec', 'string')]
+ENTRY = ('tuple', ('val', 'bool', ('option', 'rspec')))
+COQ_TY = {'rspec': 'src_rspec', 'conv': '(option ascii)', 'parse': '(list item * ptail)'}
+
+# classes isinstance may name: the table Model/FormatSrc.v classes_of knows; where they must come from
+KNOWN_CLASSES = {'str': None, 'bytes': None, 'bytearray': None, 'list': None, 'tuple': None, 'dict': None,
+                 'int': None, 'float': None, 'bool': None,
+                 'Mapping': 'collections.abc', 'Sequence': 'collections.abc', 'Set': 'collections.abc',
+                 'SpecialTagDirective': 'pypyr.dsl', 'PyString': 'pypyr.dsl', 'SicString': 'pypyr.dsl',
+                 'Jsonify': 'pypyr.dsl'}
+
+AMBIENT = ('args', 'kwargs', 'used_args')
+
+# string.Formatter methods left abstract: python parameter names -> types; coq primitive; result
+PRIMS = {
+    'parse': dict(params=[('format_string', 'string')], coq='prim_parse', ret='parse', monadic=False),
+    'get_field': dict(params=[('field_name', 'string'), ('args', 'ambient'), ('kwargs', 'ambient')],
+                      coq='prim_get_field', ret=('tuple', ('val', 'val')), monadic=True),
+    '_vformat': dict(params=[('format_string', 'string'), ('args', 'ambient'), ('kwargs', 'ambient'),
+                             ('used_args', 'ambient'), ('recursion_depth', 'Z'), ('auto_arg_index', 'autoidx')],
+                     defaults={'auto_arg_index': '(AutoAt 0%Z)'},
+                     coq='prim_vformat', ret=('tuple', ('string', 'autoidx')), monadic=True),
+    'convert_field': dict(params=[('value', 'val'), ('conversion', 'conv')], coq='prim_convert_field',
+                          ret='val', monadic=True),
+    'format_field': dict(params=[('value', 'val'), ('format_spec', 'string')], coq='prim_format_field',
+                         ret='string', monadic=True),
+}
+NOOPS = ('check_unused_args',)        # string.Formatter.check_unused_args: `pass`
+
+# parameter types of the translated methods (by python parameter name)
+SIGS = {
+    '_format_keep_type': dict(coq='gen_format_keep_type', ret='val',
+                              params={'format_string': 'string', 'args': 'ambient', 'kwargs': 'ambient',
+                                      'used_args': 'ambient', 'recursion_depth': 'Z',
+                                      'auto_arg_index': 'autoidx', 'is_recursive': 'bool'}),
+    '_get_formatted_iterable': dict(coq='gen_get_formatted_iterable', ret='val', rec='rec_get_formatted_iterable',
+                                    params={'obj': 'val', 'args': 'ambient', 'kwargs': 'ambient',
+                                            'used_args': 'ambient', 'memo': 'memo', 'is_recursive': 'bool'}),
+    'vformat': dict(coq='gen_vformat', ret='val',
+                    params={'format_string': 'val', 'args': 'ambient', 'kwargs': 'ambient'}),
+}
+ORDER = ['_format_keep_type', '_get_formatted_iterable', 'vformat']
+# element type of the list-valued locals (`x = []`) of a method: a modelling decision, python
+# tuples are heterogeneous
+LOCAL_LISTS = {'_format_keep_type': ENTRY}
+
+
+def ty_str(t):
+    if isinstance(t, str):
+        return COQ_TY.get(t, t)
+    if t[0] == 'option':
+        return f'(option {ty_str(t[1])})'
+    if t[0] == 'list':
+        return f'(list {ty_str(t[1])})'
+    if t[0] == 'tuple':
+        return '(' + ' * '.join(ty_str(x) for x in t[1]) + ')'
+    raise Untranslatable(f'type {t!r} has no Coq counterpart')
+
+
+def tup(terms):
+    return terms[0] if len(terms) == 1 else '(' + ', '.join(terms) + ')'
+
+
+def pat(names):
+    return names[0] if len(names) == 1 else "'(" + ', '.join(names) + ')'
+
+
+def wrap(binds, body):
+    for p, m in reversed(binds):
+        body = f'(let* {p} := {m} in {body})'
+    return body
+
+
+def ret_m(binds, term):
+    """`Ok term` after the bindings; a final `let* x := m in Ok x` is just m"""
+    if binds and binds[-1][0] == term:
+        return wrap(binds[:-1], binds[-1][1])
+    return wrap(binds, f'(Ok {term})')
+
+
+class Tr:
+    """one function"""
+
+    def __init__(self, unit, fname):
+        self.unit = unit
+        self.fname = fname
+        self.n = 0
+        self.aux = []
+        self.parts = {}        # coq text of a tuple -> [(term, type)]
+        self.params = {}       # python parameter name -> coq name, for the memo rule
+
+    def fresh(self, base):
+        self.n += 1
+        return f'{base.replace(".", "_")}{self.n}'
+
+    # ------------------------------------------------------------ coercions
+    def coerce(self, binds, term, ty, want):
+        """-> term of type want (may add a binding)"""
+        if want is None or want == ty:
+            return term
+        if want == 'val' and ty == 'string':
+            return f'(VStr {term})'
+        if want == 'string' and ty == 'val':
+            x = self.fresh('s')
+            binds.append((x, f'as_str {term}'))
+            return x
+        if isinstance(want, tuple) and want[0] == 'option':
+            if ty == 'none':
+                return 'None'
+            return f'(Some {self.coerce(binds, term, ty, want[1])})'
+        if isinstance(want, tuple) and want[0] == 'tuple' and isinstance(ty, tuple) and ty[0] == 'tuple' \
+                and len(want[1]) == len(ty[1]) and term in self.parts:
+            return tup([self.coerce(binds, t, tt, w) for (t, tt), w in zip(self.parts[term], want[1])])
+        if isinstance(want, tuple) and want[0] == 'list' and ty == 'emptylist':
+            return '[]'
+        raise Untranslatable(f'{ty_str(ty) if ty not in ("none", "emptylist") else ty} where {ty_str(want)} expected')
+
+    # ------------------------------------------------------------ expressions
+    def ev(self, e, env, want=None):
+        """-> (bindings in evaluation order, pure coq term, type); may narrow env in place"""
+        if isinstance(e, ast.Name):
+            if e.id not in env:
+                raise Untranslatable(f'unknown name {e.id}')
+            t, ty = env[e.id]
+            if ty in ('poison', 'ambient', 'memo', 'idof', 'memohit', 'bookkeeping', 'ofield') \
+                    or (isinstance(ty, tuple) and ty[0] == 'ofield'):
+                raise Untranslatable(f'{e.id} used as a value')
+            if ty == 'rspec' or ty == ('option', 'rspec'):
+                env['__esc__'] = env.get('__esc__', frozenset()) | {t}
+            return [], t, ty
+        if isinstance(e, ast.Constant):
+            v = e.value
+            if v is None:
+                return [], 'None', 'none'
+            if isinstance(v, bool):
+                if want == 'autoidx' and v is False:
+                    return [], 'AutoOff', 'autoidx'
+                return [], ('true' if v else 'false'), 'bool'
+            if isinstance(v, int):
+                if v < 0:
+                    raise Untranslatable('negative constant')
+                if want == 'nat':
+                    return [], str(v), 'nat'
+                if want == 'autoidx':
+                    return [], f'(AutoAt {v}%Z)', 'autoidx'
+                return [], f'{v}%Z', 'Z'
+            if isinstance(v, str):
+                return [], coq_str(v), 'string'
+            raise Untranslatable(f'constant {v!r}')
+        if isinstance(e, ast.Attribute):
+            return self.attribute(e, env)
+        if isinstance(e, ast.UnaryOp) and isinstance(e.op, ast.Not):
+            b, t = self.truth(e.operand, env)
+            return b, f'(negb {t})', 'bool'
+        if isinstance(e, ast.BoolOp):
+            return self.boolop(e, env)
+        if isinstance(e, ast.Compare) and len(e.ops) == 1:
+            return self.compare(e, env)
+        if isinstance(e, ast.BinOp) and isinstance(e.op, (ast.Add, ast.Sub)):
+            ba, a, ta = self.ev(e.left, env, 'Z')
+            bb, b, tb = self.ev(e.right, env, 'Z')
+            if ta != 'Z' or tb != 'Z':
+                raise Untranslatable('arithmetic on non-integers')
+            return ba + bb, f'({a} {"+" if isinstance(e.op, ast.Add) else "-"} {b})%Z', 'Z'
+        if isinstance(e, ast.IfExp):
+            bc, c = self.truth(e.test, env)
+            ea, eb = dict(env), dict(env)
+            ba, a, ta = self.ev(e.body, ea, want)
+            bb, b, tb = self.ev(e.orelse, eb, want)
+            ty = ta if ta == tb else ('val' if {ta, tb} == {'val', 'string'} else None)
+            if ty is None:
+                raise Untranslatable('branches of a conditional expression differ in type')
+            a = self.coerce(ba, a, ta, ty)
+            b = self.coerce(bb, b, tb, ty)
+            if not ba and not bb:
+                return bc, f'(if {c} then {a} else {b})', ty
+            x = self.fresh('x')
+            return bc + [(x, f'(if {c} then {ret_m(ba, a)} else {ret_m(bb, b)})')], x, ty
+        if isinstance(e, ast.Tuple):
+            binds, items = [], []
+            for x in e.elts:
+                b, t, ty = self.ev(x, env)
+                binds += b
+                items.append((t, ty))
+            term = tup([t for t, _ in items])
+            self.parts[term] = items
+            return binds, term, ('tuple', tuple(ty for _, ty in items))
+        if isinstance(e, ast.List):
+            if not e.elts:
+                return [], '[]', 'emptylist'
+            raise Untranslatable('list display')
+        if isinstance(e, (ast.ListComp, ast.GeneratorExp)):
+            return self.comprehension(e, env)
+        if isinstance(e, ast.Subscript):
+            return self.subscript(e, env)
+        if isinstance(e, ast.Call):
+            return self.call(e, env)
+        raise Untranslatable(f'expression {type(e).__name__}')
+
+    def attribute(self, e, env):
+        if isinstance(e.value, ast.Name) and e.value.id == 'self':
+            if e.attr in self.unit.consts:
+                return [], f'gen{e.attr}', 'Z'
+            raise Untranslatable(f'self.{e.attr} as a value')
+        if isinstance(e.value, ast.Name) and e.value.id in env:
+            t, ty = env[e.value.id]
+            fields = dict(RSPEC_FIELDS)
+            if ty == ('option', 'rspec'):
+                if e.attr not in fields:
+                    raise Untranslatable(f'attribute {e.attr}')
+                x = self.fresh(e.value.id + '_')
+                env[e.value.id] = (x, 'rspec')       # from here on it is known not to be None
+                return [(x, f'need_attr {t} {coq_str(e.attr)}')], f'(rs_{e.attr} {x})', fields[e.attr]
+            if ty == 'rspec':
+                if e.attr not in fields:
+                    raise Untranslatable(f'attribute {e.attr}')
+                return [], f'(rs_{e.attr} {t})', fields[e.attr]
+        raise Untranslatable(f'attribute {ast.unparse(e)}')
+
+    def truth(self, e, env):
+        """python truthiness -> (bindings, bool term)"""
+        b, t, ty = self.ev(e, env)
+        if ty == 'bool':
+            return b, t
+        if ty == 'string':
+            return b, f'(negb (String.eqb {t} ""))'
+        if ty == 'val':
+            return b, f'(py_truth {t})'
+        if ty == 'autoidx':
+            return b, f'(auto_truth {t})'
+        if ty == 'Z':
+            return b, f'(negb (Z.eqb {t} 0))'
+        if isinstance(ty, tuple) and ty[0] == 'list':
+            return b, f'(negb (is_nil {t}))'
+        raise Untranslatable(f'truthiness of {ty if isinstance(ty, str) else ty_str(ty)}')
+
+    def class_attr(self, e):
+        return (isinstance(e, ast.Attribute) and isinstance(e.value, ast.Name) and e.value.id == 'self'
+                and e.attr in self.unit.type_attrs)
+
+    def boolop(self, e, env):
+        # `self.X and isinstance(obj, self.X)`: X is None, a class or a tuple of classes
+        if isinstance(e.op, ast.And) and len(e.values) == 2 and self.class_attr(e.values[0]):
+            c = e.values[1]
+            if isinstance(c, ast.Call) and isinstance(c.func, ast.Name) and c.func.id == 'isinstance' \
+                    and len(c.args) == 2 and not c.keywords and self.class_attr(c.args[1]) \
+                    and c.args[1].attr == e.values[0].attr:
+                b, t, ty = self.ev(c.args[0], env)
+                if ty != 'val':
+                    raise Untranslatable('isinstance on a non-object')
+                return b, f'(isinst_opt {t} {e.values[0].attr})', 'bool'
+        binds, ts = [], []
+        for i, v in enumerate(e.values):
+            b, t = self.truth(v, dict(env) if i else env)
+            if b and i:
+                raise Untranslatable('effect in a short-circuited operand')
+            binds += b
+            ts.append(t)
+        op = 'andb' if isinstance(e.op, ast.And) else 'orb'
+        acc = ts[-1]
+        for t in reversed(ts[:-1]):
+            acc = f'({op} {t} {acc})'
+        return binds, acc, 'bool'
+
+    def compare(self, e, env):
+        op, rhs = e.ops[0], e.comparators[0]
+        if isinstance(op, (ast.Is, ast.IsNot)) and isinstance(rhs, ast.Constant) and rhs.value is None:
+            b, t, ty = self.ev(e.left, env)
+            if ty == 'none':
+                r = 'true'
+            elif isinstance(ty, tuple) and ty[0] == 'option' or ty == 'conv':
+                r = f'(match {t} with None => true | Some _ => false end)'
+            else:
+                raise Untranslatable('is None on something that cannot be None')
+            return b, (r if isinstance(op, ast.Is) else f'(negb {r})'), 'bool'
+        if isinstance(op, (ast.Is, ast.IsNot)) and isinstance(rhs, ast.Constant) and rhs.value is False:
+            b, t, ty = self.ev(e.left, env)
+            if ty != 'autoidx':
+                raise Untranslatable('is False')
+            r = f'(auto_is_false {t})'
+            return b, (r if isinstance(op, ast.Is) else f'(negb {r})'), 'bool'
+        if isinstance(op, (ast.In, ast.NotIn)) and isinstance(e.left, ast.Constant) \
+                and isinstance(e.left.value, str) and len(e.left.value) == 1:
+            b, t, ty = self.ev(rhs, env)
+            t = self.coerce(b, t, ty, 'string')
+            ch = e.left.value
+            if not (32 <= ord(ch) < 127) or ch == '"':
+                raise Untranslatable('character constant')
+            r = f'(contains_char "{ch}"%char {t})'
+            return b, (r if isinstance(op, ast.In) else f'(negb {r})'), 'bool'
+        if isinstance(op, (ast.Eq, ast.NotEq, ast.Lt, ast.LtE, ast.Gt, ast.GtE)):
+            ba, a, ta = self.ev(e.left, env)
+            bb, b, tb = self.ev(rhs, env, ta)
+            if ta != tb:
+                raise Untranslatable('comparison of different types')
+            if isinstance(op, (ast.Eq, ast.NotEq)):
+                fn = {'string': 'String.eqb', 'nat': 'Nat.eqb', 'Z': 'Z.eqb', 'bool': 'Bool.eqb'}.get(ta)
+                if fn is None:
+                    raise Untranslatable(f'== on {ta}')
+                r = f'({fn} {a} {b})'
+                return ba + bb, (r if isinstance(op, ast.Eq) else f'(negb {r})'), 'bool'
+            if ta not in ('Z', 'nat'):
+                raise Untranslatable('ordering on non-integers')
+            m = 'Z' if ta == 'Z' else 'Nat'
+            if isinstance(op, (ast.Gt, ast.GtE)):
+                a, b = b, a
+            fn = f'{m}.ltb' if isinstance(op, (ast.Lt, ast.Gt)) else f'{m}.leb'
+            return ba + bb, f'({fn} {a} {b})', 'bool'
+        if isinstance(op, (ast.Is, ast.IsNot)):
+            raise Untranslatable('identity comparison: ' + ast.unparse(e))
+        raise Untranslatable('comparison ' + ast.unparse(e))
+
+    def subscript(self, e, env):
+        b, t, ty = self.ev(e.value, env)
+        s = e.slice
+        if isinstance(s, ast.Slice):
+            if ty != 'string' or s.step is not None:
+                raise Untranslatable('slice')
+
+            def bound(x):
+                if isinstance(x, ast.Constant) and isinstance(x.value, int) and not isinstance(x.value, bool) \
+                        and x.value >= 0:
+                    return x.value
+                raise Untranslatable('slice bound')
+            if s.lower is None and s.upper is not None:
+                return b, f'(str_take {bound(s.upper)} {t})', 'string'
+            if s.upper is None and s.lower is not None:
+                return b, f'(str_drop {bound(s.lower)} {t})', 'string'
+            raise Untranslatable('slice form')
+        if isinstance(ty, tuple) and ty[0] == 'list' and isinstance(s, ast.Constant) and isinstance(s.value, int) \
+                and not isinstance(s.value, bool) and s.value >= 0:
+            x = self.fresh('e')
+            return b + [(x, f'list_get {t} {s.value}')], x, ty[1]
+        raise Untranslatable('subscript')
+
+    def comprehension(self, e, env):
+        if len(e.generators) != 1 or e.generators[0].ifs or e.generators[0].is_async:
+            raise Untranslatable('comprehension form')
+        g = e.generators[0]
+        binds = []
+        it = g.iter
+        if isinstance(it, ast.Call) and isinstance(it.func, ast.Attribute) and it.func.attr == 'items' \
+                and not it.args and not it.keywords:
+            b, t, ty = self.ev(it.func.value, env)
+            if ty != 'val':
+                raise Untranslatable('.items() of a non-object')
+            xs = self.fresh('items')
+            binds = b + [(xs, f'py_items {t}')]
+            elty = ('tuple', ('val', 'val'))
+        else:
+            b, t, ty = self.ev(it, env)
+            if ty == 'val':
+                xs = self.fresh('items')
+                binds = b + [(xs, f'py_iter {t}')]
+                elty = 'val'
+            elif isinstance(ty, tuple) and ty[0] == 'list':
+                xs, binds, elty = t, b, ty[1]
+            else:
+                raise Untranslatable('iteration over ' + (ty if isinstance(ty, str) else ty_str(ty)))
+        x = self.fresh('x')
+        sub, prefix = self.bind_target(g.target, x, elty, dict(env))
+        bb, bt, bty = self.ev(e.elt, sub)
+        ys = self.fresh('ys')
+        binds.append((ys, f'mapM (fun {x} : {ty_str(elty)} => {prefix}{ret_m(bb, bt)}) {xs}'))
+        return binds, ys, ('list', bty)
+
+    def bind_target(self, target, x, ty, env):
+        if isinstance(target, ast.Name):
+            if target.id in AMBIENT:
+                raise Untranslatable(f'{target.id} rebound')
+            env[target.id] = (x, ty)
+            return env, ''
+        if isinstance(target, ast.Tuple) and isinstance(ty, tuple) and ty[0] == 'tuple' \
+                and len(target.elts) == len(ty[1]) and all(isinstance(t, ast.Name) for t in target.elts):
+            names = []
+            for t, tty in zip(target.elts, ty[1]):
+                if t.id in AMBIENT:
+                    raise Untranslatable(f'{t.id} rebound')
+                nm = self.fresh(t.id)
+                names.append(nm)
+                env[t.id] = (nm, tty)
+            return env, f"let '({', '.join(names)}) := {x} in "
+        raise Untranslatable('assignment / loop target')
+
+    def call(self, e, env):
+        f = e.func
+        if isinstance(f, ast.Name):
+            if f.id == 'len' and len(e.args) == 1 and not e.keywords:
+                b, t, ty = self.ev(e.args[0], env)
+                if not (isinstance(ty, tuple) and ty[0] == 'list'):
+                    raise Untranslatable('len of a non-list')
+                return b, f'(List.length {t})', 'nat'
+            if f.id == 'str' and len(e.args) == 1 and not e.keywords:
+                b, t, ty = self.ev(e.args[0], env)
+                if ty == 'autoidx':
+                    return b, f'(auto_str {t})', 'string'
+                if ty == 'Z':
+                    return b, f'(str_of_Z {t})', 'string'
+                raise Untranslatable('str() of ' + (ty if isinstance(ty, str) else ty_str(ty)))
+            if f.id == 'isinstance' and len(e.args) == 2 and not e.keywords:
+                b, t, ty = self.ev(e.args[0], env)
+                if ty != 'val':
+                    raise Untranslatable('isinstance on a non-object')
+                cs = e.args[1].elts if isinstance(e.args[1], ast.Tuple) else [e.args[1]]
+                names = []
+                for c in cs:
+                    if not isinstance(c, ast.Name) or c.id not in KNOWN_CLASSES:
+                        raise Untranslatable(f'isinstance against {ast.unparse(c)}')
+                    self.unit.check_class_name(c.id)
+                    names.append(coq_str(c.id))
+                return b, f'(isinst_any {t} [{"; ".join(names)}])', 'bool'
+            if f.id == 'RecursionSpec' and len(e.args) == 1 and not e.keywords:
+                if 'gen_RecursionSpec' not in self.unit.defined:
+                    raise Untranslatable('RecursionSpec could not be translated')
+                b, t, ty = self.ev(e.args[0], env)
+                t = self.coerce(b, t, ty, 'string')
+                return b, f'(gen_RecursionSpec {t})', 'rspec'
+            raise Untranslatable(f'call of {f.id}')
+        if not isinstance(f, ast.Attribute):
+            raise Untranslatable('call form')
+        if isinstance(f.value, ast.Constant) and isinstance(f.value.value, str) and f.attr == 'join' \
+                and len(e.args) == 1 and not e.keywords:
+            b, t, ty = self.ev(e.args[0], env)
+            if ty == ('list', 'string'):
+                return b, f'(join {coq_str(f.value.value)} {t})', 'string'
+            if ty == ('list', 'val'):
+                x = self.fresh('joined')
+                return b + [(x, f'str_join_vals {coq_str(f.value.value)} {t}')], x, 'string'
+            raise Untranslatable('join of ' + ty_str(ty))
+        if f.attr == 'isdigit' and not e.args and not e.keywords:
+            b, t, ty = self.ev(f.value, env)
+            if ty != 'string':
+                raise Untranslatable('isdigit on a non-string')
+            return b, f'(isdigit {t})', 'bool'
+        if isinstance(f.value, ast.Name) and f.value.id == 'self':
+            return self.self_call(e, env)
+        if f.attr == 'get_value' and len(e.args) == 1 and not e.keywords \
+                and isinstance(e.args[0], ast.Name) and e.args[0].id == 'kwargs' \
+                and env.get('kwargs', (None, None))[1] == 'ambient':
+            b, t, ty = self.ev(f.value, env)
+            if ty != 'val':
+                raise Untranslatable('get_value on a non-object')
+            x = self.fresh('value')
+            return b + [(x, f'prim_get_value {t}')], x, 'val'
+        if f.attr == '__class__' and len(e.args) == 1 and not e.keywords:
+            bo, o, oty = self.ev(f.value, env)
+            if oty != 'val':
+                raise Untranslatable('__class__ of a non-object')
+            b, t, ty = self.ev(e.args[0], env)
+            x = self.fresh('built')
+            if ty == ('list', ('tuple', ('val', 'val'))):
+                return bo + b + [(x, f'class_call_pairs {o} {t}')], x, 'val'
+            if ty == ('list', 'val'):
+                return bo + b + [(x, f'class_call_items {o} {t}')], x, 'val'
+            raise Untranslatable('constructor argument')
+        raise Untranslatable(f'call of .{f.attr}')
+
+    def self_call(self, e, env):
+        name = e.func.attr
+        if name in PRIMS:
+            if name in self.unit.overridden:
+                raise Untranslatable(f'{name} is overridden by RecursiveFormatter: no longer CPython\'s')
+            sig = PRIMS[name]
+            params, defaults = sig['params'], sig.get('defaults', {})
+            target, ret, monadic = sig['coq'], sig['ret'], sig['monadic']
+        elif name in SIGS:
+            src = self.unit.signature(name)
+            params, defaults = src['params'], src['defaults']
+            ret, monadic = SIGS[name]['ret'], True
+            if name in self.unit.defined_methods:
+                target = SIGS[name]['coq']
+            elif 'rec' in SIGS[name]:
+                target = SIGS[name]['rec']
+            else:
+                raise Untranslatable(f'forward call to {name}')
+        else:
+            raise Untranslatable(f'call of self.{name}')
+        given, order = {}, []
+        if len(e.args) > len(params) or any(isinstance(a, ast.Starred) for a in e.args):
+            raise Untranslatable('positional arguments')
+        for (pn, _), a in zip(params, e.args):
+            given[pn] = a
+            order.append(pn)
+        for kw in e.keywords:
+            if kw.arg is None or kw.arg not in dict(params) or kw.arg in given:
+                raise Untranslatable(f'keyword {kw.arg}')
+            given[kw.arg] = kw.value
+            order.append(kw.arg)
+        binds, vals = [], {}
+        for pn in order:                       # evaluation order: as written
+            pty, a = dict(params)[pn], given[pn]
+            if pty == 'ambient':
+                if not (isinstance(a, ast.Name) and a.id == pn and env.get(pn, (None, None))[1] == 'ambient'):
+                    raise Untranslatable(f'{pn} is not passed on unchanged')
+                vals[pn] = None
+            elif pty == 'memo':
+                if isinstance(a, ast.Constant) and a.value is None:
+                    vals[pn] = ('fresh',)
+                elif isinstance(a, ast.Name) and a.id == 'memo' and env.get('memo', (None, None))[1] == 'memo':
+                    vals[pn] = ('shared',)
+                else:
+                    raise Untranslatable('memo argument')
+            else:
+                b, t, ty = self.ev(a, env, pty)
+                vals[pn] = self.coerce(b, t, ty, pty)
+                binds += b
+        args = []
+        for pn, pty in params:
+            if pn not in vals:
+                if pty == 'ambient':
+                    raise Untranslatable(f'{pn} not passed')
+                if pty == 'memo':
+                    vals[pn] = ('fresh',)
+                elif pn in defaults:
+                    vals[pn] = defaults[pn]
+                else:
+                    raise Untranslatable(f'missing argument {pn}')
+            if pty == 'memo':
+                if vals[pn] == ('shared',) and vals.get('is_recursive') != self.params.get('is_recursive'):
+                    raise Untranslatable('memo is shared with a call that changes is_recursive: a cached '
+                                         'result could be returned for the other mode')
+                continue
+            if vals[pn] is not None:
+                args.append(vals[pn])
+        callt = f'{target} {" ".join(args)}'
+        if not monadic:
+            return binds, f'({callt})', ret
+        x = self.fresh('r')
+        return binds + [(x, callt)], x, ret
+
+    # ------------------------------------------------------------ statements
+    def stmts(self, body, env, kont):
+        body = strip(body)
+        if not body:
+            return kont(env)
+        st, rest = body[0], body[1:]
+        go = lambda env2: self.stmts(rest, env2, kont)     # noqa: E731
+        drop = self.bookkeeping(st, env)
+        if drop is not None:
+            return go(drop)
+        if isinstance(st, ast.Return):
+            if not isinstance(kont, FunctionEnd):
+                raise Untranslatable('return inside a loop')
+            if st.value is None:
+                return '(Ok VNone)'
+            b, t, ty = self.ev(st.value, env, 'val')
+            if ty == 'none':
+                t, ty = 'VNone', 'val'
+            t = self.coerce(b, t, ty, 'val')
+            if '__memo_stored__' in env and env['__memo_stored__'] != t:
+                raise Untranslatable('what was memoised is not what is returned')
+            return ret_m(b, t)
+        if isinstance(st, ast.Raise):
+            x = st.exc
+            if isinstance(x, ast.Call) and isinstance(x.func, ast.Name) and len(x.args) == 1 and not x.keywords \
+                    and isinstance(x.args[0], ast.Constant) and isinstance(x.args[0].value, str) \
+                    and st.cause is None and x.func.id in ('ValueError', 'TypeError', 'KeyError', 'RuntimeError'):
+                return f'(Err {coq_str(x.func.id)} {coq_str(x.args[0].value)})'
+            raise Untranslatable('raise form')
+        if isinstance(st, ast.AugAssign) and isinstance(st.target, ast.Name) and isinstance(st.op, ast.Add):
+            x = st.target.id
+            if x not in env:
+                raise Untranslatable(f'unknown name {x}')
+            t, ty = env[x]
+            b, v, vty = self.ev(st.value, env, 'Z')
+            if vty != 'Z':
+                raise Untranslatable('+= of a non-integer')
+            nm = self.fresh(x)
+            if ty == 'autoidx':
+                new = f'auto_add {t} {v}'
+            elif ty == 'Z':
+                new = f'({t} + {v})%Z'
+            else:
+                raise Untranslatable('+= on ' + (ty if isinstance(ty, str) else ty_str(ty)))
+            return wrap(b, f'(let {nm} := {new} in {go({**env, x: (nm, ty)})})')
+        if isinstance(st, ast.Assign) and len(st.targets) == 1:
+            tg = st.targets[0]
+            if isinstance(tg, ast.Name):
+                if env.get(tg.id, (None, None))[1] in ('ambient', 'memo'):
+                    raise Untranslatable(f'{tg.id} rebound')
+                want = env[tg.id][1] if tg.id in env and isinstance(env[tg.id][1], str) \
+                    and env[tg.id][1] in ('autoidx', 'Z', 'bool', 'string', 'val') else None
+                b, t, ty = self.ev(st.value, env, want)
+                if ty == 'emptylist':
+                    elty = LOCAL_LISTS.get(self.fname)
+                    if elty is None:
+                        raise Untranslatable(f'element type of the list {tg.id} is not declared')
+                    ty = ('list', elty)
+                    t = f'(@nil {ty_str(elty)})'
+                if ty == 'none':
+                    raise Untranslatable('None bound to a name')
+                if want is not None:
+                    t = self.coerce(b, t, ty, want)
+                    ty = want
+                nm = self.fresh(tg.id)
+                return wrap(b, f'(let {nm} := {t} in {go({**env, tg.id: (nm, ty)})})')
+            if isinstance(tg, ast.Tuple):
+                b, t, ty = self.ev(st.value, env)
+                sub, prefix = self.bind_target(tg, t, ty, dict(env))
+                return wrap(b, f'({prefix}{go(sub)})')
+            if isinstance(tg, ast.Attribute) and isinstance(tg.value, ast.Name) and tg.value.id in env \
+                    and env[tg.value.id][1] == 'rspec' and tg.attr in dict(RSPEC_FIELDS):
+                r, _ = env[tg.value.id]
+                if r in env.get('__esc__', frozenset()):
+                    raise Untranslatable(f'{tg.value.id}.{tg.attr} assigned after the object was stored '
+                                         f'elsewhere (aliasing)')
+                fty = dict(RSPEC_FIELDS)[tg.attr]
+                b, t, ty = self.ev(st.value, env, fty)
+                t = self.coerce(b, t, ty, fty)
+                nm = self.fresh(tg.value.id)
+                return wrap(b, f'(let {nm} := rs_set_{tg.attr} {t} {r} in {go({**env, tg.value.id: (nm, "rspec")})})')
+            raise Untranslatable('assignment target')
+        if isinstance(st, ast.Expr) and isinstance(st.value, ast.Call) and isinstance(st.value.func, ast.Attribute) \
+                and st.value.func.attr == 'append' and isinstance(st.value.func.value, ast.Name) \
+                and len(st.value.args) == 1 and not st.value.keywords:
+            lname = st.value.func.value.id
+            if lname not in env or not (isinstance(env[lname][1], tuple) and env[lname][1][0] == 'list'):
+                raise Untranslatable('append on a non-list')
+            l, lty = env[lname]
+            b, t, ty = self.ev(st.value.args[0], env)
+            t = self.coerce(b, t, ty, lty[1])
+            nm = self.fresh(lname)
+            return wrap(b, f'(let {nm} := ({l} ++ [{t}])%list in {go({**env, lname: (nm, lty)})})')
+        if isinstance(st, ast.If):
+            return self.if_stmt(st, rest, env, kont)
+        if isinstance(st, ast.For):
+            return self.for_stmt(st, rest, env, kont)
+        raise Untranslatable(f'statement {type(st).__name__}: {ast.unparse(st)[:50]}')
+
+    def bookkeeping(self, st, env):
+        """statements dropped as effect-free -> the (possibly extended) env, else None"""
+        amb = lambda n: env.get(n, (None, None))[1] == 'ambient'      # noqa: E731
+        # used_args = set() ; used_args.add(x) ; self.check_unused_args(...)
+        if isinstance(st, ast.Assign) and len(st.targets) == 1 and isinstance(st.targets[0], ast.Name) \
+                and st.targets[0].id == 'used_args' and isinstance(st.value, ast.Call) \
+                and isinstance(st.value.func, ast.Name) and st.value.func.id == 'set' and not st.value.args \
+                and 'used_args' not in env:
+            return {**env, 'used_args': ('', 'ambient')}
+        if isinstance(st, ast.Expr) and isinstance(st.value, ast.Call) and isinstance(st.value.func, ast.Attribute):
+            f = st.value.func
+            if f.attr == 'add' and isinstance(f.value, ast.Name) and f.value.id == 'used_args' and amb('used_args') \
+                    and len(st.value.args) == 1 and isinstance(st.value.args[0], ast.Name) \
+                    and st.value.args[0].id in env and env[st.value.args[0].id][1] == 'val':
+                return env
+            if isinstance(f.value, ast.Name) and f.value.id == 'self' and f.attr in NOOPS:
+                if f.attr in self.unit.overridden:
+                    raise Untranslatable(f'{f.attr} is overridden: no longer a no-op')
+                if all(isinstance(a, ast.Name) and amb(a.id) for a in st.value.args) and not st.value.keywords:
+                    return env
+        if 'memo' not in env or env['memo'][1] != 'memo':
+            return None
+        # if memo is None: memo = {}
+        if isinstance(st, ast.If) and not st.orelse and ast.unparse(st.test) == 'memo is None' \
+                and len(st.body) == 1 and ast.unparse(st.body[0]) in ('memo = {}', 'memo = dict()'):
+            return env
+        # x = id(obj)
+        if isinstance(st, ast.Assign) and len(st.targets) == 1 and isinstance(st.targets[0], ast.Name) \
+                and isinstance(st.value, ast.Call) and isinstance(st.value.func, ast.Name) \
+                and st.value.func.id == 'id' and len(st.value.args) == 1 and isinstance(st.value.args[0], ast.Name) \
+                and st.value.args[0].id in env and env[st.value.args[0].id][0] == self.params.get('obj') \
+                and st.targets[0].id not in env:
+            return {**env, st.targets[0].id: ('', 'idof')}
+        # y = memo.get(x, None)
+        if isinstance(st, ast.Assign) and len(st.targets) == 1 and isinstance(st.targets[0], ast.Name) \
+                and isinstance(st.value, ast.Call) and ast.unparse(st.value.func) == 'memo.get' \
+                and 1 <= len(st.value.args) <= 2 and isinstance(st.value.args[0], ast.Name) \
+                and env.get(st.value.args[0].id, (None, None))[1] == 'idof' \
+                and (len(st.value.args) == 1 or ast.unparse(st.value.args[1]) == 'None') and not st.value.keywords \
+                and st.targets[0].id not in env:
+            return {**env, st.targets[0].id: ('', 'memohit')}
+        # if y is not None: return y
+        if isinstance(st, ast.If) and not st.orelse and isinstance(st.test, ast.Compare) \
+                and isinstance(st.test.left, ast.Name) and env.get(st.test.left.id, (None, None))[1] == 'memohit' \
+                and ast.unparse(st.test) == f'{st.test.left.id} is not None' and len(st.body) == 1 \
+                and ast.unparse(st.body[0]) == f'return {st.test.left.id}':
+            return env
+        # [if new is not obj:] memo[x] = new
+        store = st
+        if isinstance(st, ast.If) and not st.orelse and len(st.body) == 1 and isinstance(st.test, ast.Compare) \
+                and len(st.test.ops) == 1 and isinstance(st.test.ops[0], (ast.Is, ast.IsNot)) \
+                and isinstance(st.test.left, ast.Name) and isinstance(st.test.comparators[0], ast.Name) \
+                and all(env.get(n.id, (None, None))[1] == 'val' for n in (st.test.left, st.test.comparators[0])):
+            store = st.body[0]
+        if isinstance(store, ast.Assign) and len(store.targets) == 1 and isinstance(store.targets[0], ast.Subscript) \
+                and ast.unparse(store.targets[0].value) == 'memo' and isinstance(store.targets[0].slice, ast.Name) \
+                and env.get(store.targets[0].slice.id, (None, None))[1] == 'idof' \
+                and isinstance(store.value, ast.Name) and env.get(store.value.id, (None, None))[1] == 'val':
+            return {**env, '__memo_stored__': env[store.value.id][0]}
+        return None
+
+    def pure_block(self, body, env):
+        """a branch that only rebinds names -> ([(coq name, term)], env)"""
+        lets = []
+        env = dict(env)
+        for st in strip(body):
+            if isinstance(st, ast.If):
+                lets2, env = self.join_if(st, env)
+                lets += lets2
+                continue
+            if isinstance(st, ast.Assign) and len(st.targets) == 1 and isinstance(st.targets[0], ast.Name):
+                x = st.targets[0].id
+                if x not in env or not isinstance(env[x][1], str) or env[x][1] not in ('autoidx', 'Z', 'bool', 'string'):
+                    raise NotSimple()
+                b, t, ty = self.ev(st.value, env, env[x][1])
+                if b:
+                    raise NotSimple()
+                t = self.coerce(b, t, ty, env[x][1])
+                nm = self.fresh(x)
+                lets.append((nm, t))
+                env[x] = (nm, env[x][1])
+                continue
+            if isinstance(st, ast.Expr) and isinstance(st.value, ast.Call) and isinstance(st.value.func, ast.Attribute) \
+                    and st.value.func.attr == 'append' and isinstance(st.value.func.value, ast.Name) \
+                    and len(st.value.args) == 1 and not st.value.keywords:
+                lname = st.value.func.value.id
+                if lname not in env or not (isinstance(env[lname][1], tuple) and env[lname][1][0] == 'list'):
+                    raise NotSimple()
+                l, lty = env[lname]
+                b, t, ty = self.ev(st.value.args[0], env)
+                t = self.coerce(b, t, ty, lty[1])
+                if b:
+                    raise NotSimple()
+                nm = self.fresh(lname)
+                lets.append((nm, f'({l} ++ [{t}])%list'))
+                env[lname] = (nm, lty)
+                continue
+            raise NotSimple()
+        return lets, env
+
+    def join_if(self, st, env):
+        """`if c: <rebindings> else: <rebindings>` -> one let over the tuple of rebound names"""
+        if self.narrows(st.test, env):
+            raise NotSimple()
+        saved_n = self.n
+        b, c = self.truth(st.test, dict(env))
+        if b:
+            self.n = saved_n
+            raise NotSimple()
+        la, ea = self.pure_block(st.body, env)
+        lb, eb = self.pure_block(st.orelse, env)
+        changed = [x for x in env if not x.startswith('__') and (ea[x] != env[x] or eb[x] != env[x])]
+        if not changed or set(ea) != set(env) or set(eb) != set(env):
+            raise NotSimple()
+
+        def branch(lets, e2):
+            body = tup([e2[x][0] for x in changed])
+            for nm, t in reversed(lets):
+                body = f'(let {nm} := {t} in {body})'
+            return body
+        outs = [self.fresh(x) for x in changed]
+        new_env = {**env, **{x: (o, env[x][1]) for x, o in zip(changed, outs)}}
+        return [(pat(outs), f'(if {c} then {branch(la, ea)} else {branch(lb, eb)})')], new_env
+
+    def narrows(self, test, env):
+        while isinstance(test, ast.UnaryOp) and isinstance(test.op, ast.Not):
+            test = test.operand
+        return (isinstance(test, ast.Compare) and isinstance(test.left, ast.Name) and test.left.id in env
+                and isinstance(env[test.left.id][1], tuple) and env[test.left.id][1][0] == 'ofield')
+
+    def if_stmt(self, st, rest, env, kont):
+        saved = self.n
+        try:
+            lets, env2 = self.join_if(st, env)
+        except NotSimple:
+            self.n = saved
+            lets = None
+        if lets is not None:
+            body = self.stmts(rest, env2, kont)
+            for p, t in reversed(lets):
+                body = f'(let {p} := {t} in {body})'
+            return body
+        then = lambda e2: self.stmts(list(st.body) + rest, e2, kont)       # noqa: E731
+        other = lambda e2: self.stmts(list(st.orelse) + rest, e2, kont)    # noqa: E731
+        test, neg = st.test, False
+        while isinstance(test, ast.UnaryOp) and isinstance(test.op, ast.Not):
+            test, neg = test.operand, not neg
+        if self.narrows(test, env):
+            # `field_name is [not] None`: the format spec and conversion exist only with a field
+            if not (len(test.ops) == 1 and isinstance(test.ops[0], (ast.Is, ast.IsNot))
+                    and isinstance(test.comparators[0], ast.Constant) and test.comparators[0].value is None):
+                raise Untranslatable('test on a field name that may be None')
+            name = test.left.id
+            fld, (_, spec_name, conv_name) = env[name]
+            fn, fs, cv = self.fresh(name), self.fresh(spec_name), self.fresh(conv_name)
+            some_env = {**env, name: (fn, 'string'), spec_name: (fs, 'string'), conv_name: (cv, 'conv')}
+            none_env = {**env, name: ('None', 'none')}
+            is_some = isinstance(test.ops[0], ast.IsNot) != neg
+            a = then(some_env) if is_some else other(some_env)
+            b = other(none_env) if is_some else then(none_env)
+            return f'(match {fld} with Some ({fn}, {fs}, {cv}) => {a} | None => {b} end)'
+        env = dict(env)
+        b, c = self.truth(st.test, env)          # may narrow env for both branches
+        return wrap(b, f'(if {c} then {then(dict(env))} else {other(dict(env))})')
+
+    def for_stmt(self, st, rest, env, kont):
+        if st.orelse:
+            raise Untranslatable('for/else')
+        if not isinstance(kont, FunctionEnd):
+            raise Untranslatable('nested loop')
+        b, it, ity = self.ev(st.iter, env)
+        if ity != 'parse' or b:
+            raise Untranslatable('only `for ... in self.parse(s)` loops are translated')
+        tg = st.target
+        if not (isinstance(tg, ast.Tuple) and len(tg.elts) == 4 and all(isinstance(x, ast.Name) for x in tg.elts)):
+            raise Untranslatable('loop target: expected the 4-tuple yielded by parse')
+        names = [x.id for x in tg.elts]
+        if len(set(names)) != 4 or any(n in env for n in names):
+            raise Untranslatable('loop target shadows an outer name')
+        carried = [n for n in env if not n.startswith('__') and n in rebound_names(st.body)]
+        if any(env[n][1] in ('ambient', 'memo') for n in carried):
+            raise Untranslatable('ambient name rebound in the loop')
+        if not carried:
+            raise Untranslatable('loop without effect')
+        st_names = [self.fresh(n) for n in carried]
+        lit, fld = self.fresh(names[0]), self.fresh('field')
+        inner = {**env, **{n: (nm, env[n][1]) for n, nm in zip(carried, st_names)},
+                 names[0]: (lit, 'string'), names[1]: (fld, ('ofield', names[2], names[3])),
+                 names[2]: ('', 'poison'), names[3]: ('', 'poison')}
+        inner.pop('__memo_stored__', None)
+        body = self.stmts(list(st.body), inner, LoopEnd(carried))
+        # free outer names of the body become parameters of the body definition
+        outer = [n for n in env if not n.startswith('__') and n not in carried and env[n][0]
+                 and re.search(r'(?<![\w\'])' + re.escape(env[n][0]) + r'(?![\w\'])', body)]
+        bname = SIGS[self.fname]['coq'] + '_body'
+        binders = ' '.join(f'({env[n][0]} : {ty_str(env[n][1])})' for n in outer)
+        st_ty = ty_str(('tuple', tuple(env[n][1] for n in carried))) if len(carried) > 1 else ty_str(env[carried[0]][1])
+        self.aux.append(
+            f'(* the body of the `for ... in self.parse(...)` loop; state = ({", ".join(carried)}) *)\n'
+            f'  Definition {bname} {binders} (st_ : {st_ty}) (it_ : item) : res {st_ty} :=\n'
+            f"    let {pat(st_names)} := st_ in let '({lit}, {fld}) := it_ in\n    {body}.")
+        outs = [self.fresh(n) for n in carried]
+        after = {**env, **{n: (o, env[n][1]) for n, o in zip(carried, outs)}}
+        args = ' '.join(env[n][0] for n in outer)
+        init = tup([env[n][0] for n in carried])
+        return (f'(let* {tup(outs)} := for_parse {it} ({bname} {args}) {init} in\n    '
+                f'{self.stmts(rest, after, kont)})')
+
+
+class FunctionEnd:
+    """falling off the end of the function: return None"""
+
+    def __call__(self, env):
+        if '__memo_stored__' in env:
+            raise Untranslatable('memoised value is not returned')
+        return '(Ok VNone)'
+
+
+class LoopEnd:
+    """end of a loop body: the current values of the carried names"""
+
+    def __init__(self, carried):
+        self.carried = carried
+
+    def __call__(self, env):
+        return '(Ok ' + tup([env[n][0] for n in self.carried]) + ')'
+
+
+def rebound_names(body):
+    out = set()
+    for st in body:
+        for n in ast.walk(st):
+            if isinstance(n, (ast.Assign, ast.AnnAssign, ast.AugAssign)):
+                tgs = n.targets if isinstance(n, ast.Assign) else [n.target]
+                for tg in tgs:
+                    for m in ast.walk(tg):
+                        if isinstance(m, ast.Name) and isinstance(m.ctx, ast.Store):
+                            out.add(m.id)
+                    if isinstance(tg, (ast.Attribute, ast.Subscript)) and isinstance(tg.value, ast.Name):
+                        out.add(tg.value.id)
+            if isinstance(n, (ast.NamedExpr,)):
+                raise Untranslatable('walrus')
+            if isinstance(n, ast.Call) and isinstance(n.func, ast.Attribute) and isinstance(n.func.value, ast.Name) \
+                    and n.func.attr in ('append', 'extend', 'insert', 'pop', 'clear', 'remove', 'update'):
+                out.add(n.func.value.id)
+    out.discard('used_args')
+    return out
+
+
+# ---------------------------------------------------------------- the class as a whole
+
+class Unit:
+    def __init__(self, tree):
+        self.tree = tree
+        self.cls = find(tree, 'RecursiveFormatter')
+        self.defined = set()            # generated top-level names available
+        self.defined_methods = set()
+        self.consts = {}
+        self.type_attrs = {}
+        self.overridden = {n.name for n in self.cls.body if isinstance(n, ast.FunctionDef)
+                           and (n.name in PRIMS or n.name in NOOPS)}
+        bases = [ast.unparse(b) for b in self.cls.bases]
+        if bases != ['Formatter']:
+            raise Untranslatable(f'bases of RecursiveFormatter: {bases}')
+        self.imports = {}
+        for st in tree.body:
+            if isinstance(st, ast.ImportFrom):
+                for a in st.names:
+                    self.imports[a.asname or a.name] = (st.module, a.name)
+            elif isinstance(st, ast.Import):
+                for a in st.names:
+                    self.imports[(a.asname or a.name).split('.')[0]] = (a.name, None)
+            elif isinstance(st, (ast.Assign, ast.AnnAssign, ast.AugAssign)):
+                for n in ast.walk(st):
+                    if isinstance(n, ast.Name) and isinstance(n.ctx, ast.Store):
+                        self.imports[n.id] = ('<assigned>', None)
+            elif isinstance(st, (ast.FunctionDef, ast.ClassDef)):
+                self.imports[st.name] = ('<defined>', None)
+        if self.imports.get('Formatter') != ('string', 'Formatter'):
+            raise Untranslatable('Formatter is not string.Formatter')
+
+    def check_class_name(self, name):
+        want = KNOWN_CLASSES[name]
+        got = self.imports.get(name)
+        if want is None:
+            if got is not None:
+                raise Untranslatable(f'builtin {name} is shadowed')
+        elif got != (want, name):
+            raise Untranslatable(f'{name} does not come from {want}')
+
+    def signature(self, name):
+        fn = find(self.tree, f'RecursiveFormatter.{name}')
+        a = fn.args
+        if a.vararg or a.kwarg or a.kwonlyargs or a.posonlyargs or fn.decorator_list:
+            raise Untranslatable(f'signature of {name}')
+        names = [x.arg for x in a.args]
+        if not names or names[0] != 'self':
+            raise Untranslatable(f'signature of {name}')
+        names = names[1:]
+        types = SIGS[name]['params']
+        if any(n not in types for n in names):
+            raise Untranslatable(f'signature of {name} changed: {names}')
+        defaults = {}
+        tr = Tr(self, name)
+        for pn, d in zip(reversed(names), reversed(a.defaults)):
+            pty = types[pn]
+            if pty == 'memo':
+                if not (isinstance(d, ast.Constant) and d.value is None):
+                    raise Untranslatable('default of memo')
+                continue
+            b, t, ty = tr.ev(d, {}, pty)
+            defaults[pn] = tr.coerce(b, t, ty, pty)
+        return dict(fn=fn, params=[(n, types[n]) for n in names], defaults=defaults)
+
+    # ---- RecursionSpec.__init__
+    def recursion_spec(self):
+        fn = find(self.tree, 'RecursionSpec.__init__')
+        a = fn.args
+        if [x.arg for x in a.args] != ['self', 'format_spec'] or a.defaults or a.vararg or a.kwarg or a.kwonlyargs:
+            raise Untranslatable('signature of RecursionSpec.__init__')
+        cls = find(self.tree, 'RecursionSpec')
+        if cls.bases or any(isinstance(n, ast.FunctionDef) and n.name != '__init__' for n in cls.body):
+            raise Untranslatable('RecursionSpec has bases or further methods')
+        tr = InitTr(self, '__init__')
+        env = {'format_spec': ('format_spec', 'string')}
+        body = tr.stmts(list(fn.body), env, InitEnd())
+        return f'(format_spec : string) : src_rspec :=\n  {body}'
+
+    # ---- class constants and __init__
+    def class_consts(self):
+        out = []
+        for st in self.cls.body:
+            if isinstance(st, ast.Assign) and len(st.targets) == 1 and isinstance(st.targets[0], ast.Name):
+                v = st.value
+                if isinstance(v, ast.Constant) and isinstance(v.value, int) and not isinstance(v.value, bool):
+                    self.consts[st.targets[0].id] = v.value
+                    out.append((st.targets[0].id, v.value))
+                else:
+                    raise Untranslatable(f'class attribute {st.targets[0].id}')
+        return out
+
+    def init_attrs(self):
+        """__init__ must only store its parameters (all defaulting to None) under the same names"""
+        fn = find(self.tree, 'RecursiveFormatter.__init__')
+        a = fn.args
+        names = [x.arg for x in a.args][1:]
+        if a.vararg or a.kwarg or a.kwonlyargs or len(a.defaults) != len(names) \
+                or not all(isinstance(d, ast.Constant) and d.value is None for d in a.defaults):
+            raise Untranslatable('signature of RecursiveFormatter.__init__')
+        seen = []
+        for st in strip(fn.body):
+            if isinstance(st, ast.Assign) and len(st.targets) == 1 and isinstance(st.targets[0], ast.Attribute) \
+                    and ast.unparse(st.targets[0].value) == 'self' and isinstance(st.value, ast.Name) \
+                    and st.value.id == st.targets[0].attr and st.value.id in names:
+                seen.append(st.value.id)
+            else:
+                raise Untranslatable('statement in RecursiveFormatter.__init__')
+        if sorted(seen) != sorted(names):
+            raise Untranslatable('RecursiveFormatter.__init__ does not store every parameter once')
+        self.type_attrs = {n: True for n in names}
+        return names
+
+    def method(self, name):
+        src = self.signature(name)
+        tr = Tr(self, name)
+        env = {}
+        binders = []
+        for pn, pty in src['params']:
+            if pty in ('ambient', 'memo'):
+                env[pn] = ('', pty)
+            else:
+                env[pn] = (pn, pty)
+                tr.params[pn] = pn
+                binders.append(f'({pn} : {ty_str(pty)})')
+        body = tr.stmts(list(src['fn'].body), env, FunctionEnd())
+        self.defined_methods.add(name)
+        head = f"Definition {SIGS[name]['coq']} {' '.join(binders)} : res {ty_str(SIGS[name]['ret'])} :=\n    {body}."
+        return '\n\n  '.join(tr.aux + [head])
+
+
+class InitTr(Tr):
+    """RecursionSpec.__init__: `self.x = e` (also chained) builds the record"""
+
+    def attribute(self, e, env):
+        if isinstance(e.value, ast.Name) and e.value.id == 'self':
+            key = 'self.' + e.attr
+            if key not in env:
+                raise Untranslatable(f'{key} read before it is assigned')
+            return [], env[key][0], env[key][1]
+        return super().attribute(e, env)
+
+    def stmts(self, body, env, kont):
+        body = strip(body)
+        if body and isinstance(body[0], ast.Assign) and all(
+                isinstance(t, ast.Attribute) and isinstance(t.value, ast.Name) and t.value.id == 'self'
+                for t in body[0].targets):
+            st, rest = body[0], body[1:]
+            fields = dict(RSPEC_FIELDS)
+            env = dict(env)
+            b, t, ty = None, None, None
+            for tg in st.targets:
+                if tg.attr not in fields:
+                    raise Untranslatable(f'attribute {tg.attr} is not part of the RecursionSpec record')
+                if b is None:
+                    b, t, ty = self.ev(st.value, env, fields[tg.attr])
+                    if b:
+                        raise Untranslatable('effect in RecursionSpec.__init__')
+                if ty != fields[tg.attr]:
+                    raise Untranslatable(f'type of self.{tg.attr}')
+            nm = self.fresh(st.targets[0].attr)
+            for tg in st.targets:
+                env['self.' + tg.attr] = (nm, fields[tg.attr])
+            return f'(let {nm} := {t} in {self.stmts(rest, env, kont)})'
+        return super().stmts(body, env, kont)
+
+    def pure_block(self, body, env):
+        lets, env = [], dict(env)
+        for st in strip(body):
+            if isinstance(st, ast.Assign) and all(
+                    isinstance(t, ast.Attribute) and isinstance(t.value, ast.Name) and t.value.id == 'self'
+                    for t in st.targets):
+                fields = dict(RSPEC_FIELDS)
+                for tg in st.targets:
+                    if tg.attr not in fields or 'self.' + tg.attr not in env:
+                        raise NotSimple()
+                b, t, ty = self.ev(st.value, env, fields[st.targets[0].attr])
+                if b or any(fields[tg.attr] != ty for tg in st.targets):
+                    raise NotSimple()
+                nm = self.fresh(st.targets[0].attr)
+                lets.append((nm, t))
+                for tg in st.targets:
+                    env['self.' + tg.attr] = (nm, ty)
+                continue
+            if isinstance(st, ast.If):
+                l2, env = self.join_if(st, env)
+                lets += l2
+                continue
+            raise NotSimple()
+        return lets, env
+
+
+class InitEnd(FunctionEnd):
+    def __call__(self, env):
+        terms = []
+        for f, _ in RSPEC_FIELDS:
+            if 'self.' + f not in env:
+                raise Untranslatable(f'self.{f} is not assigned on every path')
+            terms.append(env['self.' + f][0])
+        return '(mk_src_rspec ' + ' '.join(terms) + ')'
+
+
+# ---------------------------------------------------------------- special tags (pypyr/dsl.py)
+
+TAGS = {   # class -> type of self.value (the yaml payload) in the value universe
+    'PyString': 'string', 'SicString': 'string', 'Jsonify': 'val',
+}
+TAG_PRIMS = {   # calls left abstract in get_value
+    'context.get_eval_string': ('prim_get_eval_string', 'string', 'val'),
+    'context.get_formatted_value': ('prim_get_formatted_value', 'val', 'val'),
+    'json.dumps': ('prim_json_dumps', 'val', 'string'),
+}
+
+
+class TagTr(Tr):
+    """<Tag>.get_value(self, context): `self.value` is the payload"""
+
+    def __init__(self, cls_name):
+        super().__init__(None, 'get_value')
+        self.cls_name = cls_name
+
+    def attribute(self, e, env):
+        if isinstance(e.value, ast.Name) and e.value.id == 'self' and e.attr == 'value':
+            return [], 'value', TAGS[self.cls_name]
+        raise Untranslatable(f'attribute {ast.unparse(e)}')
+
+    def call(self, e, env):
+        key = ast.unparse(e.func)
+        if key in TAG_PRIMS and len(e.args) == 1 and not e.keywords:
+            prim, aty, rty = TAG_PRIMS[key]
+            b, t, ty = self.ev(e.args[0], env)
+            t = self.coerce(b, t, ty, aty)
+            x = self.fresh('r')
+            return b + [(x, f'{prim} {t}')], x, rty
+        raise Untranslatable(f'call of {key}')
+
+
+def translate_tag(cls_name):
+    tree = ast.parse((REPO / 'pypyr' / 'dsl.py').read_text())
+    cls = find(tree, cls_name)
+    if [ast.unparse(b) for b in cls.bases] != ['SpecialTagDirective']:
+        raise Untranslatable(f'bases of {cls_name}')
+    fn = find(tree, f'{cls_name}.get_value')
+    a = fn.args
+    if [x.arg for x in a.args] != ['self', 'context'] or a.vararg or a.kwarg or a.kwonlyargs or fn.decorator_list \
+            or not all(isinstance(d, ast.Constant) and d.value is None for d in a.defaults):
+        raise Untranslatable(f'signature of {cls_name}.get_value')
+    if key_names(tree, 'json') != ('json', None):
+        raise Untranslatable('json is not the json module')
+    tr = TagTr(cls_name)
+    body = tr.stmts(list(fn.body), {'context': ('', 'ambient')}, FunctionEnd())
+    return f'(value : {ty_str(TAGS[cls_name])}) : res val :=\n    {body}'
+
+
+def key_names(tree, name):
+    for st in tree.body:
+        if isinstance(st, ast.Import):
+            for a in st.names:
+                if (a.asname or a.name) == name:
+                    return (a.name, None)
+        if isinstance(st, ast.ImportFrom):
+            for a in st.names:
+                if (a.asname or a.name) == name:
+                    return (st.module, a.name)
+    return None
+
+
+# ---------------------------------------------------------------- Context: construction and calls
+
+def class_list(e):
+    if isinstance(e, ast.Constant) and e.value is None:
+        return 'None'
+    cs = e.elts if isinstance(e, ast.Tuple) else [e]
+    for c in cs:
+        if not isinstance(c, ast.Name) or c.id not in KNOWN_CLASSES:
+            raise Untranslatable(f'class {ast.unparse(c)}')
+    return '(Some [' + '; '.join(coq_str(c.id) for c in cs) + '])'
+
+
+def context_formatter(init_names):
+    """`formatter = RecursiveFormatter(...)` in class Context -> {attribute: option (list class)}"""
+    tree = ast.parse((REPO / 'pypyr' / 'context.py').read_text())
+    imp = {}
+    for st in tree.body:
+        if isinstance(st, ast.ImportFrom):
+            for a in st.names:
+                imp[a.asname or a.name] = (st.module, a.name)
+    if imp.get('RecursiveFormatter') != ('pypyr.formatting', 'RecursiveFormatter'):
+        raise Untranslatable('context.py does not import pypyr.formatting.RecursiveFormatter')
+    cls = find(tree, 'Context')
+    made = [st for st in cls.body if isinstance(st, ast.Assign) and len(st.targets) == 1
+            and isinstance(st.targets[0], ast.Name) and st.targets[0].id == 'formatter']
+    if len(made) != 1 or not isinstance(made[0].value, ast.Call) \
+            or ast.unparse(made[0].value.func) != 'RecursiveFormatter':
+        raise Untranslatable('Context.formatter')
+    for n in ast.walk(cls):
+        if n is not made[0] and isinstance(n, (ast.Assign, ast.AugAssign, ast.AnnAssign)):
+            tgs = n.targets if isinstance(n, ast.Assign) else [n.target]
+            if any(ast.unparse(t) in ('formatter', 'self.formatter', 'Context.formatter') for t in tgs):
+                raise Untranslatable('Context.formatter is reassigned')
+    c = made[0].value
+    vals = {n: 'None' for n in init_names}
+    if len(c.args) > len(init_names):
+        raise Untranslatable('arguments of RecursiveFormatter(...)')
+    for n, a in zip(init_names, c.args):
+        vals[n] = class_list(a)
+    for kw in c.keywords:
+        if kw.arg not in init_names:
+            raise Untranslatable(f'keyword {kw.arg}')
+        vals[kw.arg] = class_list(kw.value)
+        for x in ([kw.value] if not isinstance(kw.value, ast.Tuple) else kw.value.elts):
+            if isinstance(x, ast.Name) and KNOWN_CLASSES.get(x.id) and imp.get(x.id) != (KNOWN_CLASSES[x.id], x.id):
+                raise Untranslatable(f'{x.id} does not come from {KNOWN_CLASSES[x.id]}')
+    return vals, cls
+
+
+def context_call(cls, method):
+    """every `self.formatter.vformat(...)` in Context.<method> must be vformat(<value>, None, self)"""
+    fn = next((n for n in cls.body if isinstance(n, ast.FunctionDef) and n.name == method), None)
+    if fn is None:
+        raise Untranslatable(f'Context.{method} not found')
+    calls = [n for n in ast.walk(fn) if isinstance(n, ast.Call) and isinstance(n.func, ast.Attribute)
+             and ast.unparse(n.func.value) == 'self.formatter']
+    if not calls:
+        raise Untranslatable(f'Context.{method} does not call the formatter')
+    none, ctx = True, True
+    for c in calls:
+        if c.func.attr != 'vformat' or len(c.args) != 3 or c.keywords:
+            raise Untranslatable(f'formatter call in Context.{method}')
+        none = none and isinstance(c.args[1], ast.Constant) and c.args[1].value is None
+        ctx = ctx and isinstance(c.args[2], ast.Name) and c.args[2].id == 'self'
+    return f': src_ambient := mk_src_ambient {"true" if none else "false"} {"true" if ctx else "false"}'
+
+
+# ---------------------------------------------------------------- output
+
+def emit(lines, header, name, fn, indent='', kind='Definition', raw=False):
+    try:
+        body = fn()
+        lines.append(f'{indent}(* {header} *)')
+        lines.append(f'{indent}{body}' if raw else f'{indent}{kind} {name} {body}.')
+        return 'ok'
+    except Exception as ex:      # fail closed on anything, including bugs of the translator itself
+        msg = str(ex).replace('*)', '* )').replace('(*', '( *').replace('"', "'")
+        lines.append(f'{indent}(* {header} could not be translated: {type(ex).__name__}: {msg} *)')
+        lines.append(f'{indent}Definition {name}_UNTRANSLATED : unit := tt.')
+        return f'untranslated: {ex}'
+
+
+def translate_all():
+    lines = ['(** Gen/GenC08.v — GENERATED by tools/py2coq_c08.py from the current source under the',
+             '    repository; do not edit.  A function that could not be translated gets the suffix',
+             '    _UNTRANSLATED, which breaks every lemma that mentions the expected name. *)',
+             'From PV Require Import FormatSrc.', 'Open Scope string_scope.', '']
+    status = {}
+    try:
+        unit = Unit(ast.parse((REPO / 'pypyr' / 'formatting.py').read_text()))
+    except (Untranslatable, OSError, SyntaxError) as ex:
+        lines.append(f'(* pypyr/formatting.py could not be read: {ex} *)')
+        lines.append('Definition gen_formatting_UNTRANSLATED : unit := tt.')
+        text = '\n'.join(lines) + '\n'
+        if not OUT.exists() or OUT.read_text() != text:
+            OUT.write_text(text)
+        return {'formatting.py': f'untranslated: {ex}'}
+
+    def rspec():
+        body = unit.recursion_spec()
+        unit.defined.add('gen_RecursionSpec')
+        return body
+    status['gen_RecursionSpec'] = emit(lines, 'pypyr/formatting.py :: RecursionSpec.__init__', 'gen_RecursionSpec', rspec)
+    lines.append('')
+
+    def consts():
+        return '\n'.join(f'Definition gen{n} : Z := {v}%Z.' for n, v in unit.class_consts())
+    status['class constants'] = emit(lines, 'pypyr/formatting.py :: RecursiveFormatter, class attributes',
+                                     'gen_FORMAT_SPEC_RECURSION_DEPTH', consts, raw=True)
+    lines.append('')
+    init_names = []
+
+    def init():
+        init_names.extend(unit.init_attrs())
+        if init_names != ['passthrough_types', 'special_types']:
+            raise Untranslatable(f'attributes of RecursiveFormatter: {init_names}')
+        return ': list string := [' + '; '.join(coq_str(n) for n in init_names) + ']'
+    status['gen_formatter_attrs'] = emit(lines, 'pypyr/formatting.py :: RecursiveFormatter.__init__ stores its '
+                                         'parameters (default None) as', 'gen_formatter_attrs', init)
+    lines += ['', 'Section GenFormatter.',
+              '  (* self.passthrough_types / self.special_types: None, or the class names *)',
+              '  Variable passthrough_types : option (list string).',
+              '  Variable special_types : option (list string).',
+              '  (* string.Formatter (CPython), not overridden by RecursiveFormatter: left abstract *)',
+              '  Variable prim_parse : string -> list item * ptail.',
+              '  Variable prim_get_field : string -> res (val * val).',
+              '  Variable prim_vformat : string -> Z -> autoidx -> res (string * autoidx).',
+              '  Variable prim_convert_field : val -> option ascii -> res val.',
+              '  Variable prim_format_field : val -> string -> res string.',
+              '  (* obj.get_value(kwargs) of a special tag *)',
+              '  Variable prim_get_value : val -> res val.',
+              '  (* self._get_formatted_iterable(obj, args, kwargs, used_args, memo, is_recursive): the knot *)',
+              '  Variable rec_get_formatted_iterable : val -> bool -> res val.', '']
+    for name in ORDER:
+        status[SIGS[name]['coq']] = emit(lines, f'pypyr/formatting.py :: RecursiveFormatter.{name}', SIGS[name]['coq'],
+                                         lambda n=name: unit.method(n), indent='  ', raw=True)
+        lines.append('')
+    lines += ['End GenFormatter.', '']
+
+    lines += ['Section GenTags.',
+              '  (* context.get_eval_string / context.get_formatted_value / json.dumps: left abstract *)',
+              '  Variable prim_get_eval_string : string -> res val.',
+              '  Variable prim_get_formatted_value : val -> res val.',
+              '  Variable prim_json_dumps : val -> res string.', '']
+    for cname in TAGS:
+        status[f'gen_{cname}_get_value'] = emit(lines, f'pypyr/dsl.py :: {cname}.get_value', f'gen_{cname}_get_value',
+                                                lambda c=cname: translate_tag(c), indent='  ')
+    lines += ['End GenTags.', '']
+
+    ctx = {}
+
+    def ctx_attr(attr):
+        if not ctx:
+            vals, cls = context_formatter(init_names)
+            ctx['vals'], ctx['cls'] = vals, cls
+        return f': option (list string) := {ctx["vals"][attr]}'
+    for attr in ('passthrough_types', 'special_types'):
+        status[f'gen_context_{attr}'] = emit(
+            lines, f'pypyr/context.py :: Context.formatter = RecursiveFormatter(...): {attr}',
+            f'gen_context_{attr}', lambda a=attr: ctx_attr(a))
+    lines.append('')
+    for m in ('get_formatted_value', 'get_formatted', 'get_formatted_as_type', 'iter_formatted_strings'):
+        status[f'gen_context_{m}_call'] = emit(
+            lines, f'pypyr/context.py :: Context.{m}: self.formatter.vformat(value, None, self)',
+            f'gen_context_{m}_call', lambda mm=m: (ctx_attr('special_types'), context_call(ctx['cls'], mm))[1])
+    lines.append('')
+    text = '\n'.join(lines)
+    OUT.parent.mkdir(exist_ok=True)
+    if not OUT.exists() or OUT.read_text() != text:
+        OUT.write_text(text)
+    return status
+
+
+def main():
+    try:
+        status = translate_all()
+    except Exception as ex:      # never leave a stale generated file behind
+        msg = str(ex).replace('*)', '* )').replace('(*', '( *')
+        text = (f'(* Gen/GenC08.v: tools/py2coq_c08.py failed: {type(ex).__name__}: {msg} *)\n'
+                'Definition gen_formatting_UNTRANSLATED : unit := tt.\n')
+        OUT.parent.mkdir(exist_ok=True)
+        if not OUT.exists() or OUT.read_text() != text:
+            OUT.write_text(text)
+        status = {'pypyr/formatting.py': f'untranslated: {ex}'}
+    for k, v in status.items():
+        print(k, v)
+    return 0
+
+
+if __name__ == '__main__':
+    sys.exit(main())
